@@ -229,7 +229,7 @@ func (g *G) project() {
 	var infos []*svcInfo
 	profilePool := []string{"debug", "tools"}
 	for i := 0; i < nSvc; i++ {
-		info := &svcInfo{name: fmt.Sprintf("%s%d", pick(g, "web", "db", "api", "job", "cache"), i), index: i}
+		info := &svcInfo{name: fmt.Sprintf("%s%d", pick(g, "web", "db", "api", "job", "cache", "web.api", "db.primary.eu"), i), index: i} // some names contain dots (legal user-chosen keys)
 		if g.Cfg.Profiles && i > 0 && g.chance(0.35) {
 			info.profiles = subset(g, profilePool, g.n(1, 2))
 			sort.Strings(info.profiles)
